@@ -97,7 +97,7 @@ Theorem pydate_roundtrip_regular : forall f s pos, is_regular_freq f = true -> 1
   exists t, to_pydate pos (mkP f s) = Ok t /\ from_pydate f t = Ok (mkP f s).
 Proof.
   intros f s pos R Y. destruct (ymd_roundtrip_regular f s pos R) as (y & m & d & A & B & Ey & Em & Ed).
-  exists (y, m, d). unfold to_pydate. rewrite A. cbn [bind].
+  exists (y, m, d). unfold to_pydate. rewrite A. cbn [bind unpack_ymd].
   pose proof (regular_pos f R) as F. pose proof (Z.mod_pos_bound s f F) as MB.
   destruct (seg_months_range f (s mod f + 1) R ltac:(lia)) as (M1 & M2 & _).
   assert (date_ok y m d = true) as ->.
@@ -109,7 +109,7 @@ Theorem pydate_roundtrip_daily : forall n pos, in_calendar n ->
   exists t, to_pydate pos (mkP freq_DAILY n) = Ok t /\ from_pydate freq_DAILY t = Ok (mkP freq_DAILY n).
 Proof.
   intros n pos H. destruct (ymd_roundtrip_daily n pos H) as (y & m & d & A & B & E).
-  exists (y, m, d). unfold to_pydate. rewrite A. cbn [bind].
+  exists (y, m, d). unfold to_pydate. rewrite A. cbn [bind unpack_ymd].
   assert (date_ok y m d = true) as ->.
   { apply date_ok_spec. pose proof (ymd_of_ord_valid n ltac:(destruct H; lia)) as V. rewrite <- E in V.
     split; [exact V |]. pose proof (ord_of_ymd_of_ord n) as W. rewrite <- E in W. destruct W as (_ & _ & _ & ->).
@@ -194,7 +194,7 @@ Theorem refrequent_contains : forall p pos g, in_domain p -> cal_freq g ->
 Proof.
   intros p pos g D G. destruct (domain_date p pos D) as (y & m & d & A & V & Y & _).
   destruct (from_ymd_contains g y m d G V Y) as (r & a & c & F & Fr & _ & Sa & Sc & _ & _ & O).
-  exists r, y, m, d, a, c. unfold refrequent. rewrite A. cbn [bind]. auto 10.
+  exists r, y, m, d, a, c. unfold refrequent. rewrite A. cbn [bind unpack_ymd]. auto 10.
 Qed.
 
 (* dates are monotone in the serial *)
@@ -253,7 +253,7 @@ Proof.
   intros p q pos g r r' Dp Dq G F L A B.
   destruct (domain_date p pos Dp) as (y & m & d & Ap & V & Y & _).
   destruct (domain_date q pos Dq) as (y' & m' & d' & Aq & V' & Y' & _).
-  unfold refrequent in A, B. rewrite Ap in A. rewrite Aq in B. cbn [bind] in A, B.
+  unfold refrequent in A, B. rewrite Ap in A. rewrite Aq in B. cbn [bind unpack_ymd] in A, B.
   split.
   - destruct (from_ymd_contains g y m d G V Y) as (r0 & _ & _ & F0 & Fr0 & _).
     destruct (from_ymd_contains g y' m' d' G V' Y') as (r1 & _ & _ & F1 & Fr1 & _). congruence.
@@ -287,7 +287,7 @@ Proof.
   destruct (seg_months_range f (s mod f + 1) Rf ltac:(lia)) as (M1 & M2 & _).
   assert (V : valid_ymd y m d) by (unfold valid_ymd; subst y; lia).
   assert (YM : y <= MAXYEAR) by (subst y; lia).
-  unfold refrequent at 1. rewrite A. cbn [bind].
+  unfold refrequent at 1. rewrite A. cbn [bind unpack_ymd].
   destruct G as [(Rg & D) | ->].
   - (* regular finer target *)
     pose proof (regular_pos g Rg) as Fg.
@@ -297,7 +297,7 @@ Proof.
     exists (mkP g (y * g + seg' - 1)). split; [apply from_ymd_regular; assumption |]. split; [reflexivity |].
     destruct (ymd_roundtrip_regular g (y * g + seg' - 1) pos2 Rg) as (y2 & m2 & d2 & A2 & _ & Ey2 & Em2 & _).
     rewrite Ey' in Ey2. rewrite Es' in Em2. subst y2.
-    unfold refrequent. rewrite A2. cbn [bind]. rewrite from_ymd_regular by assumption. f_equal. f_equal.
+    unfold refrequent. rewrite A2. cbn [bind unpack_ymd]. rewrite from_ymd_regular by assumption. f_equal. f_equal.
     assert (month_to_segment g m2 = seg') by (apply mts_of_segment; assumption).
     rewrite (nesting f g m m2 Rf Rg D H).
     rewrite (mts_of_segment f (s mod f + 1) m Rf) by lia.
@@ -309,7 +309,7 @@ Proof.
              rewrite (proj2 (date_ok_spec y m d) (conj V YM)). reflexivity. }
     split; [reflexivity |].
     destruct (accessors_vs_calendar_daily _ C) as (TA & _).
-    unfold refrequent. rewrite TA, ymd_of_ord_of_ymd by assumption. cbn [bind]. exact B.
+    unfold refrequent. rewrite TA, ymd_of_ord_of_ymd by assumption. cbn [bind unpack_ymd]. exact B.
 Qed.
 
 (* ------------------------------------------------------------------ strings: helper lemmas *)
@@ -447,7 +447,7 @@ Theorem iso_roundtrip : forall p pos, in_domain p ->
 Proof.
   intros p pos D. destruct (domain_date p pos D) as (y & m & d & A & V & Y & B).
   destruct V as (V1 & V2 & V3). pose proof (dim_range y m). unfold MAXYEAR in Y.
-  eexists. unfold to_iso. rewrite A. cbn [bind]. rewrite to_iso_string_form by lia. cbn [of_opt].
+  eexists. unfold to_iso. rewrite A. cbn [bind unpack_ymd]. rewrite to_iso_string_form by lia. cbn [of_opt].
   split; [reflexivity |]. rewrite from_iso_of_form by lia. exact B.
 Qed.
 
